@@ -37,6 +37,10 @@ type hist struct {
 	// Real: the transactions call the real faucetsc / vestingsc / zcnsc contracts (registered behind a
 	// recorder); run on the implementation oracles only, the contracts are not modelled here.
 	Real bool `json:"real,omitempty"`
+	// Blocks: the transactions are grouped by round into blocks and each block is executed by the real
+	// block.ComputeState (a block with a "flaky" script call is interrupted at it on the first attempt
+	// and computed again); judged by the cache-vs-trie read oracle only.
+	Blocks bool `json:"blocks,omitempty"`
 }
 
 type clsCase struct {
@@ -47,6 +51,8 @@ type clsCase struct {
 type step struct {
 	pre, post chainh.Snap
 	res       chainh.Result
+	root      string // state root after the step
+	gn        string // miner SC global node in the trie after the step (Real histories)
 }
 
 var envCache = map[[2]bool]*chainh.Env{}
@@ -78,7 +84,11 @@ func run(h hist) []step {
 	for i, t := range h.Txns {
 		res := st.Apply(i, t)
 		post := universe.Snapshot(st.MPT)
-		out = append(out, step{pre, post, res})
+		sp := step{pre: pre, post: post, res: res, root: st.Root()}
+		if h.Real {
+			sp.gn = st.MinerGlobal()
+		}
+		out = append(out, sp)
 		pre = post
 	}
 	return out
@@ -196,7 +206,7 @@ func simulate(pre map[int]uint64, l []chainh.Tr) (final map[int]*big.Int, failAt
 type stats struct {
 	applied, appliedMoved, rejected, nonceRej, fundsRej, chargeable, chargeableDirty, internal int
 	laterTransferFailed, multiTransfer, capBypassed, signedApplied                            int
-	reads, ghostWrites, realUnknown                                                           int
+	reads, ghostWrites, realUnknown, realFailed                                               int
 }
 
 func check(h hist, steps []step) ([]viol, stats) {
@@ -1162,6 +1172,155 @@ func genRealHist(r *vh.Rand) hist {
 	return h
 }
 
+// genStakeHist (C04): real calls that move the sender's own tokens, with repeats: minersc
+// addToDelegatePool by the same client on the same provider with different values, faucet refill,
+// vestingsc add, zcnsc burn.
+func genStakeHist(r *vh.Rand) hist {
+	h := hist{Fee: !r.Chance(1, 4), Real: true}
+	clients := []int{3, 4, 5}
+	h.Init = append(h.Init, chainh.Acct{ID: chainh.IDMiner, Bal: uint64(r.Range(0, 1000)), Txn: -1})
+	for _, c := range clients {
+		h.Init = append(h.Init, chainh.Acct{ID: c, Bal: uint64(r.Range(2000, 100000)), Txn: -1})
+	}
+	h.Init = append(h.Init, chainh.Acct{ID: chainh.IDFaucet, Bal: 500, Txn: -1})
+	st := newState(h)
+	n := r.Range(3, 10)
+	round := int64(4)
+	for i := 0; i < n; i++ {
+		snap := acctMap(universe.Snapshot(st.MPT))
+		round++
+		from := clients[r.Intn(2)] // few clients so that they stake again on the same provider
+		t := chainh.Txn{Type: 1000, From: from, Round: round, Nonce: snap[from].Nonce + 1, Fee: uint64(r.Range(0, 5))}
+		switch x := r.Intn(10); {
+		case x < 7:
+			t.To, t.Fn = chainh.IDMiner, "addToDelegatePool"
+			prov := r.Intn(2)
+			t.Value = uint64(r.Range(1, 400))
+			t.Input = fmt.Sprintf(`{"provider_type":%d,"provider_id":%q}`, prov+1, chainh.ProviderID(prov))
+			if r.Chance(1, 10) {
+				t.Input = fmt.Sprintf(`{"provider_type":%d,"provider_id":%q}`, prov+1, chainh.ProviderID(7))
+			}
+		case x < 8:
+			t.To, t.Fn, t.Value = chainh.IDFaucet, "refill", uint64(r.Range(1, 300))
+		case x < 9:
+			a := uint64(r.Range(1, 60))
+			t.To, t.Fn, t.Value = chainh.IDVesting, "add", a+uint64(r.Range(0, 9))
+			t.Input = fmt.Sprintf(`{"description":"verif","start_time":0,"duration":5000000000,"destinations":[{"id":%q,"amount":%d}]}`, chainh.AccountID(5), a)
+		default:
+			t.To, t.Fn, t.Value = chainh.IDZcn, "burn", uint64(r.Range(5, 40))
+			t.Input = `{"ethereum_address":"0x0000000000000000000000000000000000005001"}`
+		}
+		h.Txns = append(h.Txns, t)
+		st.Apply(i, t)
+	}
+	return h
+}
+
+// genBlockHist (C07): 3-6 blocks of 1-4 valid script calls over cacheable nodes 8-10 (writes, deletes,
+// reads; success or chargeable failure); about half of the blocks from the second on hold one flaky
+// call, so that their first ComputeState attempt is interrupted there and the block is computed again.
+func genBlockHist(r *vh.Rand) hist {
+	h := hist{Fee: r.Bool(), Blocks: true}
+	clients := []int{3, 4, 5}
+	h.Init = []chainh.Acct{{ID: chainh.IDMiner, Bal: 10, Txn: -1}, {ID: chainh.IDScript, Bal: 1000, Txn: -1}}
+	nonce := map[int]int64{}
+	for _, c := range clients {
+		h.Init = append(h.Init, chainh.Acct{ID: c, Bal: uint64(r.Range(10000, 100000)), Txn: -1})
+	}
+	sort.Slice(h.Init, func(i, j int) bool { return h.Init[i].ID < h.Init[j].ID })
+	nb := r.Range(3, 6)
+	for b := 0; b < nb; b++ {
+		nt := r.Range(1, 4)
+		flakyAt := -1
+		if b > 0 && r.Bool() {
+			flakyAt = r.Intn(nt)
+		}
+		for k := 0; k < nt; k++ {
+			from := clients[r.Intn(len(clients))]
+			nonce[from]++
+			s := chainh.Script{Mode: "ok", Out: r.Range(1, 50)}
+			if r.Chance(1, 5) {
+				s.Mode = "fail"
+			}
+			if k == flakyAt {
+				s.Mode = "flaky"
+			}
+			for q, n := 0, r.Range(1, 4); q < n; q++ {
+				key := chainh.CacheableFrom + r.Range(0, 2)
+				switch x := r.Intn(10); {
+				case x < 5:
+					s.Ops = append(s.Ops, chainh.ScOp{K: "w", Key: key, Val: int64(r.Range(1, 99))})
+				case x < 6:
+					s.Ops = append(s.Ops, chainh.ScOp{K: "d", Key: key})
+				default:
+					s.Ops = append(s.Ops, chainh.ScOp{K: "r", Key: key})
+				}
+			}
+			h.Txns = append(h.Txns, chainh.Txn{Type: 1000, From: from, To: chainh.IDScript, Fee: uint64(r.Range(0, 3)), Nonce: nonce[from], Round: int64(10 + b), Script: s})
+		}
+	}
+	return h
+}
+
+// genSettingsHist (C02): the real minersc (cacheable global node) and faucetsc update_settings
+// through Chain.UpdateState over several blocks with the production cache layering: successful
+// updates (which put the global node into the block / state cache and later save it again) around
+// failing ones that change reference-typed fields (the cost table) in memory before validate()
+// refuses them.
+func genSettingsHist(r *vh.Rand) hist {
+	h := hist{Fee: !r.Chance(1, 5), Real: true}
+	h.Init = []chainh.Acct{{ID: chainh.IDMiner, Bal: uint64(r.Range(0, 1000)), Txn: -1}, {ID: 3, Bal: uint64(r.Range(10000, 100000)), Txn: -1},
+		{ID: 4, Bal: uint64(r.Range(1000, 100000)), Txn: -1}, {ID: chainh.IDFaucet, Bal: 1000, Txn: -1}}
+	st := newState(h)
+	costs := []string{"add_miner", "add_sharder", "update_settings"}
+	n := r.Range(3, 9)
+	round := int64(r.Range(2, 9))
+	for i := 0; i < n; i++ {
+		snap := acctMap(universe.Snapshot(st.MPT))
+		if !r.Chance(1, 4) {
+			round++
+		}
+		from := 3 // the owner
+		if r.Chance(1, 8) {
+			from = 4
+		}
+		t := chainh.Txn{Type: 1000, From: from, To: chainh.IDMiner, Fn: "update_settings", Round: round, Nonce: snap[from].Nonce + 1, Fee: uint64(r.Range(0, 9))}
+		var fields []string
+		cost := func() { fields = append(fields, fmt.Sprintf(`"cost.%s":"%d"`, costs[r.Intn(len(costs))], r.Range(1, 99))) }
+		if r.Chance(1, 5) {
+			t.To, t.Fn = chainh.IDFaucet, "update-settings"
+			switch r.Intn(3) {
+			case 0:
+				fields = append(fields, fmt.Sprintf(`"cost.pour":"%d"`, r.Range(1, 99)), `"pour_amount":"0"`) // refused by validate
+			case 1:
+				fields = append(fields, fmt.Sprintf(`"cost.refill":"%d"`, r.Range(1, 99)))
+			default:
+				fields = append(fields, fmt.Sprintf(`"max_pour_amount":"0.00000%d"`, r.Range(1, 9)))
+			}
+		} else {
+			switch x := r.Intn(10); {
+			case x < 4: // succeeds
+				fields = append(fields, fmt.Sprintf(`"max_delegates":"%d"`, r.Range(100, 300)))
+				if r.Bool() {
+					cost()
+				}
+			case x < 8: // touches the cost table, then fails the validation
+				cost()
+				fields = append(fields, []string{`"max_n":"0"`, `"min_n":"0"`, `"t_percent":"7"`, `"max_s":"0"`}[r.Intn(4)])
+			case x < 9: // fails without touching anything
+				fields = append(fields, `"max_n":"0"`)
+			default:
+				fields = append(fields, `"no_such_setting":"1"`)
+				cost()
+			}
+		}
+		t.Input = `{"fields":{` + strings.Join(fields, ",") + `}}`
+		h.Txns = append(h.Txns, t)
+		st.Apply(i, t)
+	}
+	return h
+}
+
 // ---------- genesis (C01) ----------
 
 func genGenesis(r *vh.Rand) []chainh.GenGroup {
@@ -1339,15 +1498,81 @@ func key(h hist) string {
 }
 
 func sub(h hist, keep []int) hist {
-	h2 := hist{Fee: h.Fee, Events: h.Events, Init: h.Init, Nodes: h.Nodes}
+	h2 := hist{Fee: h.Fee, Events: h.Events, Init: h.Init, Nodes: h.Nodes, Real: h.Real, Blocks: h.Blocks}
 	for _, i := range keep {
 		h2.Txns = append(h2.Txns, h.Txns[i])
 	}
 	return h2
 }
 
+// checkAll = check + the reference world for histories over real contracts: the same history in
+// which every call that failed in its contract is replaced by a call of the same sender, fee,
+// nonce and hash to an address with no contract behind it - it fails before anything runs, so it
+// leaves exactly fee + nonce + error event.  If a failed call leaves nothing else behind either,
+// both worlds have the same state root after every transaction.
+func checkAll(h hist, steps []step) ([]viol, stats) {
+	vs, st := check(h, steps)
+	if !h.Real {
+		return vs, st
+	}
+	ref := sub(h, seq(len(h.Txns)))
+	ref.Real = true
+	nfail := 0
+	for i, s := range steps {
+		if s.res.Applied && s.res.Status == 2 && s.res.Rec.Called && s.res.Rec.Real {
+			t := ref.Txns[i]
+			t.To, t.Fn, t.Input = chainh.IDNoSC, "", ""
+			ref.Txns[i] = t
+			nfail++
+		}
+	}
+	st.realFailed = nfail
+	if nfail == 0 {
+		return vs, st
+	}
+	rsteps := run(ref)
+	for i := range steps {
+		if steps[i].root != rsteps[i].root {
+			vs = append(vs, viol{"C02:failed-call-effect-surfaced-later", fmt.Sprintf(
+				"after txn %d (%s) the state root differs from the reference world in which the %d earlier failed contract call(s) touched nothing but fee and nonce; miner SC global node in the trie: %s, reference: %s",
+				i, h.Txns[i].Fn, nfail, steps[i].gn, rsteps[i].gn)})
+			break
+		}
+	}
+	return vs, st
+}
+
+// blockViols runs a Blocks history and applies the read oracle: whatever is read through the cache
+// layers (by a call in a block, or by a query on a computed block) equals what the block's trie holds.
+func blockViols(h hist) ([]viol, chainh.BlocksResult) {
+	res := chainh.RunBlocks(env(h.Fee, h.Events), h.Init, h.Txns)
+	var vs []viol
+	show := func(p *int64) string {
+		if p == nil {
+			return "absent"
+		}
+		return fmt.Sprint(*p)
+	}
+	for _, rd := range res.Reads {
+		if (rd.Seen == nil) != (rd.Trie == nil) || (rd.Seen != nil && *rd.Seen != *rd.Trie) {
+			vs = append(vs, viol{"C07:context-read-differs-from-trie", fmt.Sprintf("%s read node %d through the state cache layers and got %s; the block's trie holds %s (history has %d block(s), %d interrupted first attempt(s))",
+				rd.Where, rd.Key, show(rd.Seen), show(rd.Trie), res.Blocks, res.Interrupted)})
+		}
+	}
+	return vs, res
+}
+
 func hasSig(h hist, sig string) bool {
-	vs, _ := check(h, run(h))
+	if h.Blocks {
+		vs, _ := blockViols(h)
+		for _, v := range vs {
+			if v.sig == sig {
+				return true
+			}
+		}
+		return false
+	}
+	vs, _ := checkAll(h, run(h))
 	for _, v := range vs {
 		if v.sig == sig {
 			return true
@@ -1463,7 +1688,33 @@ func main() {
 			rep.Violate("C03:generator-classification-disagrees", fmt.Sprintf("validateTransaction classified nonce %d against state nonce %d (leaf present: %v) as class %d", c.Txn, sn, c.State != nil, got), h)
 		}
 	}
+	handleBlocks := func(h hist) {
+		vs, res := blockViols(h)
+		rep.CountN("blockmode-blocks-computed", res.Blocks)
+		rep.CountN("blockmode-first-attempt-interrupted", res.Interrupted)
+		rep.CountN("blockmode-reads-compared", len(res.Reads))
+		if res.Failed != "" {
+			rep.Count("blockmode-history-stopped-at-failed-block")
+		}
+		rep.Case(key(h), res.Interrupted > 0 && len(res.Reads) > 0, h)
+		for _, v := range vs {
+			if !strings.HasPrefix(v.sig, prop+":") {
+				continue
+			}
+			already := false
+			for _, x := range rep.Violations {
+				already = already || x.Signature == v.sig
+			}
+			if !already {
+				rep.Violate(v.sig, v.desc, minimize(h, v.sig))
+			}
+		}
+	}
 	handle := func(h hist, toCoq bool) {
+		if h.Blocks {
+			handleBlocks(h)
+			return
+		}
 		if h.Genesis != nil {
 			handleGenesis(h)
 			return
@@ -1473,7 +1724,8 @@ func main() {
 			return
 		}
 		steps := run(h)
-		vs, st := check(h, steps)
+		vs, st := checkAll(h, steps)
+		rep.CountN("real-failed-calls-compared-with-reference-world", st.realFailed)
 		for _, s := range steps {
 			switch {
 			case s.res.Panic != "":
@@ -1491,7 +1743,7 @@ func main() {
 			}
 		}
 		if h.Real {
-			names := map[int]string{chainh.IDFaucet: "faucetsc", chainh.IDVesting: "vestingsc", chainh.IDZcn: "zcnsc"}
+			names := map[int]string{chainh.IDFaucet: "faucetsc", chainh.IDVesting: "vestingsc", chainh.IDZcn: "zcnsc", chainh.IDMiner: "minersc"}
 			for i, t := range h.Txns {
 				out := "rejected"
 				if steps[i].res.Applied {
@@ -1602,11 +1854,36 @@ func main() {
 		}
 		rep.Note("exhaustive single-transfer scope: %d one-transaction histories (6 source x 6 destination balances x 7 amounts, send and contract-queued, fees on/off) run on the implementation oracle; a third of them (all in the thorough tier) also compared with the model", nEx)
 	}
+	if prop == "C07" {
+		nbh := o.N(200, 2000)
+		for i := 0; i < nbh; i++ {
+			handle(genBlockHist(rnd), false)
+		}
+		rep.Note("block mode: %d histories of 3-6 blocks executed by the real block.ComputeState over the real chain.Chain.UpdateState with one StateCache; blocks with a flaky call are interrupted (SC context error -> StateCancelled) at it on the first attempt and computed again; every read a call makes through the cache layers and a query-style read of every cacheable key on every computed block are compared with the block's trie", nbh)
+	}
+	if prop == "C02" || prop == "C07" {
+		ns := o.N(150, 1500)
+		for i := 0; i < ns; i++ {
+			handle(genSettingsHist(rnd), false)
+		}
+		// the three-step shape spelled out: ok update, failing update that first rewrites a cost, ok update
+		upd := func(i int, f string) chainh.Txn {
+			return chainh.Txn{Type: 1000, From: 3, To: chainh.IDMiner, Fn: "update_settings", Input: `{"fields":{` + f + `}}`, Round: int64(2 + i), Nonce: int64(i + 1), Fee: 3}
+		}
+		handle(hist{Fee: true, Real: true, Init: []chainh.Acct{{ID: 3, Bal: 100000, Txn: -1}},
+			Txns: []chainh.Txn{upd(0, `"max_delegates":"201"`), upd(1, `"cost.add_miner":"1","max_n":"0"`), upd(2, `"max_delegates":"202"`)}}, false)
+		rep.Note("real settings contracts: %d histories of 3-9 real minersc / faucetsc update_settings calls (successful ones around failing ones that rewrite the cost table before validate() refuses them) through Chain.UpdateState with one StateCache and a BlockCache per block; every history with a failed call is re-run as a reference world in which the failed calls are replaced by calls to an address without contract (fee + nonce + error event only) and the state roots are compared after every transaction", ns+1)
+	}
 	if prop == "C04" {
 		nr := o.N(150, 1500)
 		for i := 0; i < nr; i++ {
 			handle(genRealHist(rnd), false)
 		}
+		nk := o.N(150, 1500)
+		for i := 0; i < nk; i++ {
+			handle(genStakeHist(rnd), false)
+		}
+		rep.Note("real staking: %d histories of 3-10 real calls that move the sender's own tokens, mostly minersc addToDelegatePool by the same few clients on the same miner / sharder with different values (repeated stakes), plus faucet refill, vestingsc add, zcnsc burn", nk)
 		rep.Note("real contracts: %d histories of 4-16 calls of the real faucetsc (pour, refill), vestingsc (add, trigger, unlock, stop, delete) and zcnsc (burn) executed through Chain.UpdateState behind a recorder of what they queue; judged by the C04 oracle (debits attributed to the recorded transfers + fee, sender debit <= value+fee, no account debited other than the sender and the called contract's wallet); not compared with the model", nr)
 	}
 	if prop == "C05" || prop == "C04" {
